@@ -42,6 +42,10 @@ def fixtures():
         # a container-like component (an empty inventory has len 0) and a switch that is off: falsy objects are components too
         _K[1] = type('T1Inventory', (core.Component,), {'__slots__': (), '__len__': lambda self: 0})
         _K[3] = type('T3Switch', (core.Component,), {'__slots__': (), '__bool__': lambda self: False})
+        # namesakes: distinct component classes that share their __name__ (same-named classes from two modules) - K[2] is carried like
+        # K[0] and named like it; K[4], the type nobody has, is named like K[1]
+        _K[2] = type('T0', (core.Component,), {'__slots__': ()})
+        _K[4] = type('T1Inventory', (core.Component,), {'__slots__': ()})
         for n in ('C13_PREY', 'C13_PREDATOR'):
             try:
                 tags.add_tag(n)
